@@ -195,3 +195,96 @@ def partition_graph_rule(ck, rule='DT-partition-edges'):
     mp = [s for s in ast.walk(fn) if isinstance(s, ast.Expr) and call_attr(s.value) == 'update' and u(s.value.func.value) == 'mapping']
     ck.ob(rule, gu.loc(fn), len(mp) == 1 and 'for node_idx in node_idxs' in u(mp[0]) and 'node_idx: idx' in u(mp[0]),
           'every node of every partition is entered in the node -> partition table', key=rule + '|mapping')
+
+
+# --------------------------------------------------------------------------
+# STATE: results must not depend on what an object or module remembers from an
+# earlier call.  Inventory of today's state writers (confirmed by reading); a
+# new writer of module-/class-level containers or of instance attributes outside
+# __init__ is reported.
+SHARED_STATE_ALLOWED = {
+    ('vermouth/file_writer.py', 'Singleton._instances'): 'the singleton registry of the deferred writer',
+    ('vermouth/forcefield.py', '_FORCE_FIELDS'): 'cache of the shipped force fields (identity-compared singletons)',
+}
+INSTANCE_STATE_ALLOWED = {
+    'vermouth/ffinput.py': {'FFDirector.parse_header': {'section'}, 'FFDirector._new_block': {'current_block'}, 'FFDirector._new_link': {'current_link'},
+                            'FFDirector._new_modification': {'current_modification'}},
+    'vermouth/ismags.py': {'ISMAGS._sgn_partitions': {'_sgn_partitions_'}, 'ISMAGS._sge_partitions': {'_sge_partitions_'}, 'ISMAGS._gn_partitions': {'_gn_partitions_'},
+                           'ISMAGS._ge_partitions': {'_ge_partitions_'}, 'ISMAGS._sgn_colors': {'_sgn_colors_'}, 'ISMAGS._sge_colors': {'_sge_colors_'},
+                           'ISMAGS._gn_colors': {'_gn_colors_'}, 'ISMAGS._ge_colors': {'_ge_colors_'}, 'ISMAGS._node_compatibility': {'_node_compat_'},
+                           'ISMAGS._edge_compatibility': {'_edge_compat_'}},
+    'vermouth/map_parser.py': {'MappingBuilder.reset': {'blocks_from', 'blocks_to', 'ff_from', 'ff_to', 'mapping', 'names', 'references'},
+                               'MappingBuilder.to_ff': {'ff_to'}, 'MappingBuilder.from_ff': {'ff_from'}, 'MappingBuilder.add_block_from': {'blocks_from'},
+                               'MappingBuilder.add_block_to': {'blocks_to'}, 'MappingBuilder.add_node_from': {'blocks_from'}, 'MappingBuilder.add_node_to': {'blocks_to'},
+                               'MappingDirector._reset_mapping': {'_current_id', 'ff', 'identifiers'}},
+    'vermouth/molecule.py': {'Molecule.add_node': {'max_node'}, 'Molecule.merge_molecule': {'max_node', 'nrexcl'}},
+    'vermouth/parser_utils.py': {'SectionLineParser.finalize': {'macros', 'section'}, 'SectionLineParser.parse_header': {'section'}},
+    'vermouth/system.py': {'System.add_molecule': {'force_field'}},
+    'vermouth/gmx/itp_read.py': {'ITPDirector.parse_pragma': {'current_meta'}, 'ITPDirector.parse_header': {'section'},
+                                 'ITPDirector.finalize_section': {'current_atom_names'}, 'ITPDirector._new_block': {'current_block'}},
+    'vermouth/gmx/rtp.py': {'_IterRTPSubsectionLines.__next__': {'running'}, '_IterRTPSubsections.__next__': {'current_subsection', 'running'},
+                            '_IterRTPSections.__next__': {'current_section'}},
+    'vermouth/pdb/pdb.py': {'PDBParser.model': {'_skipahead'}, 'PDBParser._finish_molecule': {'active_molecule'}},
+    'vermouth/processors/water_bias.py': {'ComputeWaterBias.run_system': {'system'}},
+    'vermouth/rcsu/go_pipeline.py': {'GoProcessorPipeline.run_system': {'kwargs'}},
+    'vermouth/rcsu/go_structure_bias.py': {'ComputeStructuralGoBias.run_molecule': {'res_graph'}, 'ComputeStructuralGoBias.run_system': {'system'}},
+    'vermouth/rcsu/go_vs_includes.py': {'VirtualSiteCreator.run_system': {'system'}},
+}
+
+
+def _is_container(v):
+    return isinstance(v, (ast.Dict, ast.List, ast.Set)) or (isinstance(v, ast.Call) and call_name(v) in flow.CONTAINER_CALLS | {'set', 'dict', 'list'})
+
+
+def no_new_state(ck, rels, rule='STATE-no-memory'):
+    nmod = ninst = 0
+    for rel in rels:
+        m = ck.index.mod(rel)
+        cands = {}
+        for st in m.tree.body:
+            if isinstance(st, ast.Assign) and isinstance(st.targets[0], ast.Name) and _is_container(st.value):
+                cands[st.targets[0].id] = st
+        for cname, c in m.classes.items():
+            for st in c.body:
+                if isinstance(st, ast.Assign) and isinstance(st.targets[0], ast.Name) and _is_container(st.value):
+                    cands[cname + '.' + st.targets[0].id] = st
+        for qual, fn in m.functions.items():
+            own_locals = {n.id for n in walk_local(fn) if isinstance(n, ast.Name) and isinstance(n.ctx, ast.Store)}
+            for n in walk_local(fn):
+                tgt = None
+                if isinstance(n, (ast.Subscript, ast.Attribute)) and isinstance(n.ctx, (ast.Store, ast.Del)):
+                    tgt = n
+                elif isinstance(n, ast.Call) and isinstance(n.func, ast.Attribute) and n.func.attr in flow.MUTATOR_METHODS:
+                    tgt = n.func.value
+                elif isinstance(n, ast.Global):
+                    for g in n.names:
+                        nmod += 1
+                        reason = SHARED_STATE_ALLOWED.get((rel, g))
+                        ck.ob(rule, m.loc(n), reason is not None, '{} rebinds the module-level name `{}`{}'.format(
+                            qual, g, ' -- allowed: ' + reason if reason else ': module-level state that survives between calls'), key='{}|module|{}|{}'.format(rule, rel, g))
+                if tgt is None:
+                    continue
+                b = base_name(tgt)
+                t = u(tgt)
+                for c in cands:
+                    short = c.split('.')[-1]
+                    hit = (b == c and c not in own_locals) or ('.' in c and b in ('self', 'cls', c.split('.')[0]) and
+                                                               (t.startswith('self.' + short) or t.startswith('cls.' + short) or t.startswith(c)))
+                    if hit:
+                        nmod += 1
+                        reason = SHARED_STATE_ALLOWED.get((rel, c))
+                        ck.ob(rule, m.loc(n), reason is not None, '{} writes into the shared container `{}`{}'.format(
+                            qual, c, ' -- allowed: ' + reason if reason else ': state shared between calls / instances'), key='{}|shared|{}|{}'.format(rule, rel, c))
+            if '.' in qual and not qual.endswith('__init__'):
+                stores = {n.attr for n in walk_local(fn) if isinstance(n, ast.Attribute) and isinstance(n.ctx, ast.Store)
+                          and isinstance(n.value, ast.Name) and n.value.id == 'self'}
+                allowed = INSTANCE_STATE_ALLOWED.get(rel, {}).get(qual, set())
+                extra = stores - allowed
+                if stores:
+                    ninst += 1
+                    ck.ob(rule, m.loc(fn), not extra,
+                          '{} stores instance state {} outside __init__{}'.format(qual, sorted(stores), '' if not extra else
+                                                                                  ': {} is new state that a later call on the same object would see'.format(sorted(extra))),
+                          key='{}|instance|{}|{}'.format(rule, rel, qual))
+    ck.ob(rule, ','.join(rels), True, 'state lint ran over {} ({} shared-container writer(s), {} method(s) with instance state, all in the inventory)'.format(
+        ', '.join(rels), nmod, ninst), key=rule + '|ran|' + ','.join(rels))
